@@ -4,6 +4,7 @@ import (
 	"context"
 	"errors"
 	"fmt"
+	"sync"
 	"testing"
 
 	"github.com/ipfs/go-cid"
@@ -56,6 +57,11 @@ func genC17(t *rapid.T) c17Prog {
 			}
 		case 3:
 			ops = append(ops, sim.Op{Kind: "twindeny", B: rapid.IntRange(0, 1<<10).Draw(t, "twin")})
+		case 6:
+			// a log on ANOTHER store is appended to, through the same codec object, while a log on this store is
+			if rapid.IntRange(0, 2).Draw(t, "twoStores") == 0 {
+				ops = append(ops, sim.Op{Kind: "twostores", PC: rapid.SampledFrom([]int{3, 8, 20}).Draw(t, "twoStoresN")})
+			}
 		}
 		ops = append(ops, op)
 	}
@@ -127,7 +133,7 @@ func runC17(tb ev.TB, p c17Prog) ev.Result {
 	var committed []committedAppend
 	twins, exactTwins, multiWrite, leftovers := 0, 0, 0, 0
 	cancelArmed, cancelled := false, 0
-	races, panics := 0, 0
+	races, panics, twoStores := 0, 0, 0
 	for i, op := range p.World.Ops {
 		n := len(w.Reps)
 		opCtx := ctx
@@ -210,6 +216,57 @@ func runC17(tb ev.TB, p c17Prog) ev.Result {
 			set := r.Model.Clone()
 			set.Add(e2.GetHash().String())
 			rets = append(rets, returned{kind: "entry", c: e2.GetHash(), prefix: w.Store.NumWrites(), set: set, heads: world.SetOf([]string{e2.GetHash().String()}), opIndex: i})
+			continue
+		case "twostores":
+			// two applications in one process: each appends to a log of its own, on a store of its own, through the one
+			// codec object (the default codec is a process-wide object anyway). What an Append returns must be in the
+			// store of ITS log.
+			if failArmed || cancelArmed {
+				continue
+			}
+			other := fakeipfs.NewStore()
+			aside, err1 := ipfslog.NewLog(w.Store.API(), world.Identity(6), &ipfslog.LogOptions{ID: "aside-log", IO: w.IO})
+			elsewhere, err2 := ipfslog.NewLog(other.API(), world.Identity(7), &ipfslog.LogOptions{ID: "elsewhere-log", IO: w.IO})
+			if err1 != nil || err2 != nil {
+				tb.Fatalf("op #%d: harness: %v %v", i, err1, err2)
+			}
+			var wg sync.WaitGroup
+			var here, there []iface.IPFSLogEntry
+			var aerr, eerr error
+			wg.Add(2)
+			go func() {
+				defer wg.Done()
+				for k := 0; k < op.PC && aerr == nil; k++ {
+					var e iface.IPFSLogEntry
+					if e, aerr = aside.Append(ctx, []byte(fmt.Sprintf("aside-%d-%d", i, k)), &ipfslog.AppendOptions{PointerCount: 4}); aerr == nil {
+						here = append(here, e)
+					}
+				}
+			}()
+			go func() {
+				defer wg.Done()
+				for k := 0; k < op.PC && eerr == nil; k++ {
+					var e iface.IPFSLogEntry
+					if e, eerr = elsewhere.Append(ctx, []byte(fmt.Sprintf("elsewhere-%d-%d", i, k)), &ipfslog.AppendOptions{PointerCount: 4}); eerr == nil {
+						there = append(there, e)
+					}
+				}
+			}()
+			wg.Wait()
+			if aerr != nil || eerr != nil {
+				tb.Fatalf("op #%d: appends on two stores at once failed: %v / %v", i, aerr, eerr)
+			}
+			for _, e := range here {
+				if _, ok := w.Store.Raw(e.GetHash()); !ok {
+					tb.Fatalf("op #%d: Append returned %s, but the store of its log does not hold the block (another log, on another store, was appended to through the same codec object at the same time)", i, world.Short(e.GetHash().String()))
+				}
+			}
+			for _, e := range there {
+				if _, ok := other.Raw(e.GetHash()); !ok {
+					tb.Fatalf("op #%d: Append on the second store returned %s, but that store does not hold the block", i, world.Short(e.GetHash().String()))
+				}
+			}
+			twoStores++
 			continue
 		case "twindeny":
 			// a second replica of the same writer that holds exactly the history one committed entry was appended
@@ -546,6 +603,7 @@ func runC17(tb ev.TB, p c17Prog) ev.Result {
 	ev.Get("C17").AddExtra("loads_from_prefixes", loads)
 	ev.Get("C17").AddExtra("concurrent_twin_appends_of_one_block", races)
 	ev.Get("C17").AddExtra("store_panics_that_reached_the_caller", panics)
+	ev.Get("C17").AddExtra("episodes_of_appends_on_two_stores_at_once", twoStores)
 	ev.Get("C17").AddExtra("operations_issued_with_a_cancelled_context", cancelled)
 	ev.Get("C17").AddExtra("injected_write_failures", nfail)
 	ev.Get("C17").AddExtra("operations_repeated_right_after_a_failed_write", retries)
@@ -613,7 +671,7 @@ func (a state) diff(b state) string {
 func TestC17(t *testing.T) {
 	c := ev.Get("C17")
 	c.Level = "fault_enumeration"
-	c.Rule = "a generated multi-replica program over ONE shared store (which copies the bytes it is handed or, in half of the programs, keeps the very slices like in-memory datastores do; appends with skip references, unbounded merges, identity changes, default or link-key codec) interleaved with manifest publications, injected block-write failures (1, 2 or 3 writes in a row or every write until the operation has returned; reported as a plain error, as an error that calls itself a timeout, as a deadline error, as a wrapped timeout - or not reported at all: the storage layer panics under the write (a panic that reaches the caller counts as a failed operation); half of them followed at once by the same operation again: the publication repeated, the append made by a second replica of the same writer in the same state) appends that an access controller refuses although they reproduce a committed block, appends / publications issued with an already cancelled context (whatever they return without an error must be stored), and two replicas of one writer appending the same entry at the same time while the first write of the block is held inside the store (what the second returns must be stored already). Crash points are the boundaries between block writes of the fake store (every Dag().Add of the library is one atomic step): for EVERY write prefix of the history every entry block must decode and name only blocks written before it, and every manifest only stored heads. Every value returned to a caller (each append's hash, each manifest CID) is loaded from the store truncated to the prefix that existed when it was returned, from the final store and from further prefixes (all later prefixes in the thorough tier, 2 generated ones in quick) and must give exactly the entry set / heads / values of the log at that moment. An operation whose block write fails must either return an error and leave entries and heads unchanged, or return a value whose block is stored after all (it is then held to the same loads). Non-trivial = history with a merge-append (entry with >= 2 predecessors) and an append after a publication by the same replica; distinct = distinct program."
+	c.Rule = "a generated multi-replica program over ONE shared store (which copies the bytes it is handed or, in half of the programs, keeps the very slices like in-memory datastores do; appends with skip references, unbounded merges, identity changes, default or link-key codec) interleaved with manifest publications, injected block-write failures (1, 2 or 3 writes in a row or every write until the operation has returned; reported as a plain error, as an error that calls itself a timeout, as a deadline error, as a wrapped timeout - or not reported at all: the storage layer panics under the write (a panic that reaches the caller counts as a failed operation); half of them followed at once by the same operation again: the publication repeated, the append made by a second replica of the same writer in the same state) appends that an access controller refuses although they reproduce a committed block, appends / publications issued with an already cancelled context (whatever they return without an error must be stored), episodes in which a log on ANOTHER store is appended to through the same codec object while a log on this store is (what each Append returns must be in the store of its log), and two replicas of one writer appending the same entry at the same time while the first write of the block is held inside the store (what the second returns must be stored already). Crash points are the boundaries between block writes of the fake store (every Dag().Add of the library is one atomic step): for EVERY write prefix of the history every entry block must decode and name only blocks written before it, and every manifest only stored heads. Every value returned to a caller (each append's hash, each manifest CID) is loaded from the store truncated to the prefix that existed when it was returned, from the final store and from further prefixes (all later prefixes in the thorough tier, 2 generated ones in quick) and must give exactly the entry set / heads / values of the log at that moment. An operation whose block write fails must either return an error and leave entries and heads unchanged, or return a value whose block is stored after all (it is then held to the same loads). Non-trivial = history with a merge-append (entry with >= 2 predecessors) and an append after a publication by the same replica; distinct = distinct program."
 	c.Assumptions = []string{"replicas share one store (the statement's setting); block writes are atomic", "the clock bump of a failed append is not part of the observable state checked (entries and heads are)"}
 	ev.Check(t, "C17", genC17, runC17)
 }
